@@ -90,7 +90,8 @@ def table_texts(res, ctx, rng):
         text, model = gen_table_text(rng)
         res.case(text)
         try:
-            got = from_trace_codes_text(text)
+            # (every fifth call by the documented parameter name)
+            got = from_trace_codes_text(codes_text=text) if it % 5 == 4 else from_trace_codes_text(text)
         except Exception as x:
             res.violation(f'c19-text-raises-{core.exc_name(x)}', f'{x!r} on a table of {len(model)} entries', {'text': text})
             continue
@@ -175,18 +176,25 @@ def listing_names(lines):
     return [l.rstrip() for l in lines]
 
 
+KEYWORD_TURN = [0]
+
+
 def front(data, table, what):
     from pykdebugparser.pykdebugparser import PyKdebugParser
     p = PyKdebugParser()
     p.color = False
     p.show_timestamp = False
     p.show_process = False
+    KEYWORD_TURN[0] += 1
+    by_name = KEYWORD_TURN[0] % 3 == 0          # every third request names its arguments (kdebug=, trace_codes=)
     if what == 'kevents':
         p.show_func_qual = False
         p.show_args = False
-        return list(p.formatted_kevents(io.BytesIO(data), table))
+        return list(p.formatted_kevents(kdebug=io.BytesIO(data), trace_codes=table) if by_name else
+                    p.formatted_kevents(io.BytesIO(data), table))
     if what == 'traces':
-        return [(t.ktraces[0].eventid, str(t)) for t in p.traces(io.BytesIO(data), table)]
+        return [(t.ktraces[0].eventid, str(t)) for t in (p.traces(kdebug=io.BytesIO(data), trace_codes=table) if by_name else
+                                                          p.traces(io.BytesIO(data), table))]
     if what == 'callstacks':
         return [(c.tid, [(f.address, f.offset) for f in c.frames]) for c in p.callstacks(io.BytesIO(data), table)]
     p.show_tid = False
